@@ -194,13 +194,15 @@ def gen_sig(rng, idx: int, force=None):
     if rng.random() < 0.3:
         rng.shuffle(kinds)  # spox does not insist on "only a suffix may be optional"
     if rng.random() < 0.45:
-        kinds.append("variadic")
+        # spox does not insist on "the variadic field comes last" either: first / middle / last
+        pos = rng.choice([len(kinds), len(kinds), 0, rng.randrange(0, len(kinds) + 1)])
+        kinds.insert(pos, "variadic")
     if not kinds:
         kinds = ["single"]
     inputs = [(f"i{j}", k) for j, k in enumerate(kinds)]
     okinds = ["single"] * rng.randrange(1, 3) + (["optional"] if rng.random() < 0.2 else [])
     if rng.random() < 0.35:
-        okinds.append("variadic")
+        okinds.insert(rng.choice([len(okinds), len(okinds), 0, rng.randrange(0, len(okinds) + 1)]), "variadic")
     outputs = [(f"o{j}", k) for j, k in enumerate(okinds)]
     attrs = []
     for j in range(rng.randrange(0, 5)):
@@ -1362,6 +1364,32 @@ def run(ck: core.Check):
             for pat in repeat_patterns([s for s in raw_slots(sig) if s], rng, 0):
                 sig2 = dict(sig, inst=dict(sig["inst"], same=pat))
                 run_case(ck, env, sig2, rng, reqs, metas, stats)
+    # field-shape grid: a variadic input (0..3 members) first / in the middle / last, optionals set / unset before
+    # and after it, up to three optionals at the tail, with and without a leading single input: the emitted
+    # input list is compared position by position with the declaration (`len(inputs)` = flattened positions)
+    gi = 0
+    for lead in (False, True):
+        for nb in (0, 1):
+            for na in (0, 1, 2, 3):
+                names_b = [f"b{j}" for j in range(nb)]
+                names_a = [f"t{j}" for j in range(na)]
+                inputs = ([("s0", "single")] if lead else []) + [(n, "optional") for n in names_b] \
+                    + [("xs", "variadic")] + [(n, "optional") for n in names_a]
+                for bits in range(2 ** (nb + na)):
+                    for nvar in (0, 1, 2, 3):
+                        gi += 1
+                        if not ck.thorough and (gi + ck.seed) % 2 and not (nvar >= 2 and na and not bits >> nb):
+                            continue  # quick tier: every second one, but always "≥2 members, tail all unset"
+                        sig = gen_sig(rng, 40_000 + gi, {"inputs": inputs})
+                        sig["inst"]["present"] = {n: bool(bits >> j & 1) for j, n in enumerate(names_b + names_a)}
+                        sig["inst"]["nvar"] = nvar
+                        sig["inst"]["vform"] = ["list", "tuple", "gen"][gi % 3]
+                        sig["inst"].pop("same", None)
+                        sig["inst"].pop("vmut", None)
+                        run_case(ck, env, sig, rng, reqs, metas, stats)
+                        stats["shape_grid"] = stats.get("shape_grid", 0) + 1
+                        if nvar >= 2 and na and gi % 3 == 0:
+                            compose_case(ck, env, sig, "top", rng, [])
     # second inference
     re_meta = []
     for i in range(ck.pick(20, 100)):
